@@ -27,6 +27,7 @@ func CopyWithCallback(writer io.Writer, reader io.Reader, totalSize int64, cb Co
 		}
 		return totalSize, nil
 	}
+	writer = verifWrapWriter(writer)
 	if cb == nil {
 		return io.Copy(writer, reader)
 	}
